@@ -109,6 +109,12 @@ func TestC15Lists(t *testing.T) {
 			base := rapid.SampledFrom([]int{64, 512, 4096, 4096, 8192}).Draw(t, "boundary")
 			c.Pad = max(0, base-rapid.IntRange(0, len(c.SS[0])+4).Draw(t, "before"))
 		}
+		if len(c.SS) > 0 && rapid.IntRange(0, 11).Draw(t, "many") == 0 {
+			c.Rep = rapid.SampledFrom([]int{13, 16, 17, 33, 64, 65, 66, 130}).Draw(t, "rep")
+		}
+		if rapid.IntRange(0, 29).Draw(t, "pre") == 0 {
+			c.Pre = rapid.SampledFrom([]int{66000, 70000, 140000}).Draw(t, "preBytes")
+		}
 		return c
 	}, runQuote)
 }
@@ -351,6 +357,10 @@ func TestC16Rand(t *testing.T) {
 			// place the interesting bytes across the 4096- or 8192-byte boundary
 			base := rapid.SampledFrom([]int{4096, 4096, 8192}).Draw(t, "boundary")
 			c.Pad = max(0, base-rapid.IntRange(0, len(b)+2).Draw(t, "before"))
+			c.PadKind = rapid.IntRange(0, 3).Draw(t, "padKind")
+		}
+		if rapid.IntRange(0, 7).Draw(t, "manyFields") == 0 {
+			c.Fields = rapid.SampledFrom([]int{14, 15, 16, 17, 31, 32, 33, 63, 64, 65}).Draw(t, "fields") - rapid.IntRange(0, 2).Draw(t, "fieldsOff")
 		}
 		c.Frag = rapid.SliceOfN(rapid.IntRange(0, 7), 0, 6).Draw(t, "frag")
 		ok := false
